@@ -114,7 +114,7 @@ def generate(chk):
 
 
 def corpus(chk):
-    return gen.corpus(id)
+    return [(n, s_) for n, s_ in gen.corpus(id) if s_ and s_[0].startswith("y ")]
 
 
 def hx(s):
@@ -359,6 +359,52 @@ def _dump_of(ln):
     i = ln.find("| C ")
     j = ln.find(" | I ")
     return ln[i + 4:j] if i >= 0 and j > i else None
+
+
+class _ZZ:
+    """second part: the C++ colour printer (mpt++/color.cpp operator<<) with the C parser, harness/drvxx_layout.cpp"""
+    id = "C20"
+    area = "layout"
+    driver = "drvxx_layout"
+    cxx = True
+    fixed_lines = 1
+    link_extra = ["-fno-sanitize=vptr"]
+
+    @staticmethod
+    def corpus(chk):
+        return [(n, s_) for n, s_ in gen.corpus(id) if s_ and s_[0].startswith("z ")]
+
+    @staticmethod
+    def scripts(tier, seed, scale=1):
+        out = []
+        r = gen.rng(id, tier, seed, "zz")
+        vals = []
+        B = [0, 1, 15, 16, 127, 128, 254, 255]
+        for a in B:
+            for x in (0, 0x44, 0xaa, 255):
+                vals.append((x, 255 - x, a ^ x, a))
+        for _ in range((300 if tier == "quick" else 5000) * scale):
+            vals.append(tuple(r.choice(B + [r.randrange(256)]) for _ in range(4)))
+        for i in range(0, len(vals), 8):
+            out.append(("zp:%d" % i, ["z begin"] + ["z print %02x%02x%02x%02x" % v for v in vals[i:i + 8]]))
+        texts = list(COLOURS) + ["#44aa44aa", "#aaaaaaaa", "#01020304", "#ff00ff00", "#0000007f"]
+        for i in range(0, len(texts), 8):
+            out.append(("zr:%d" % i, ["z begin"] + ["z reprint " + hx(t) for t in texts[i:i + 8] if t]))
+        return out
+
+    @staticmethod
+    def nontrivial(script, c_lines):
+        return any("back=col:" in ln and not ln.split("back=col:")[1].startswith(("000000ff",)) for ln in c_lines)
+
+    @staticmethod
+    def tally(chk, script, c_lines):
+        d = chk.__dict__.setdefault("distribution", {})
+        d["z"] = d.get("z", 0) + len(script) - 1
+
+    finding_key = staticmethod(lambda script, res: finding_key(script, res))
+
+
+extra_parts = [_ZZ]
 
 
 def nontrivial(script, c_lines):
